@@ -142,18 +142,18 @@ def gen_program(rng: random.Random) -> dict:
                         expected += (v & ((1 << (8 * WIDTH[d])) - 1)).to_bytes(WIDTH[d], "little")
                 prog.append({"k": "data", "d": d, "es": es})
             elif c < 0.78:
-                chars = ASCII_CHARS + ("\u00e9\u30a2\u00a9\u00df" if rng.random() < 0.2 else "")
+                chars = ASCII_CHARS + ("\u00e9\u30a2\u00a9\u00df" if rng.random() < 0.2 else "") + ("\t\t  " if rng.random() < 0.3 else "")
                 t = "".join(rng.choice(chars) for _ in range(rng.choice([0, 1, 3, 16, 60])))
                 prog.append({"k": "ascii", "t": t})
                 expected += bytes(ord(c) for c in t if ord(c) < 128)     # a character without an ASCII byte emits nothing
             else:
                 sub = rng.random() < 0.3
-                fname = ("sub/" if sub else "") + f"blob{len(files)}.{rng.choice(['bin', 'dat', 'chr'])}"
+                fname = ("sub/" if sub else "") + f"blob{len(files)}.{rng.choice(['bin', 'dat', 'chr', 'bin', 'smc', 'sfc', 'swc', 'fig', 'ips', 's', 'tbl'])}"
                 if rng.random() < 0.2:
                     fname = rng.choice(["./", "sub/../", "./sub/"]) + fname      # every / and . of the path becomes one _
                 # lengths chosen to end before / at / after the end of the current bank
                 room = 0x10000 - (here() & 0xFFFF)
-                ln = rng.choice([0, 1, 2, 7, 255, 256, room - 1, room, room + 1, room + 2, 0x8000, 0x8001, 70000, rng.randrange(0, 4000)])
+                ln = rng.choice([0, 1, 2, 7, 255, 256, room - 1, room, room + 1, room + 2, 0x8000, 0x8001, 70000, rng.randrange(0, 4000), 0x200, 0x8200, 0x10200, 0x400, 0x7FFF])
                 ln = max(0, ln)
                 data = rng.randbytes(ln) if ln < 5000 else (rng.randbytes(997) * (ln // 997 + 1))[:ln]
                 files[fname] = data
